@@ -156,7 +156,7 @@ Lemma shape_reg_S r s n id :
   match entry_body r id with
   | None => SCut
   | Some t =>
-      let fld (f : field) : fshape := (f_name f, is_boxed f, shape_reg r s n (f_ty f)) in
+      let fld (f : field) : fshape := (f_name f, is_boxed_gen f, shape_reg r s n (f_ty f)) in
       match t_def t with
       | TDComposite fs =>
           named_shape s (t_path t) (map (shape_reg r s n) (param_ids t)) (SStruct (map fld fs))
@@ -196,7 +196,7 @@ Section Sound.
 
   Lemma fields_core fs :
     map (fun f : fshape => let '(m, _, y) := f in (m, false, shape_core y))
-        (map (fun f : field => (f_name f, is_boxed f, shape_reg r s n (f_ty f))) fs) = map fcore fs.
+        (map (fun f : field => (f_name f, is_boxed_gen f, shape_reg r s n (f_ty f))) fs) = map fcore fs.
   Proof. rewrite map_map. reflexivity. Qed.
 
   Lemma fields_equal_sound fa fb st st' :
@@ -215,7 +215,7 @@ Section Sound.
     t_path ta = t_path tb -> param_ids ta = [] -> param_ids tb = [] ->
     plain_def recp ta tb st = Ok (true, st') ->
     let body (t : ty) :=
-      let fld (f : field) : fshape := (f_name f, is_boxed f, shape_reg r s n (f_ty f)) in
+      let fld (f : field) : fshape := (f_name f, is_boxed_gen f, shape_reg r s n (f_ty f)) in
       match t_def t with
       | TDComposite fs =>
           named_shape s (t_path t) (map (shape_reg r s n) (param_ids t)) (SStruct (map fld fs))
